@@ -43,7 +43,7 @@ def main_guards():
 
 
 def c09_items():
-    return [("doctrans.conformance:_get_name_from_namespace", pluralise_mapping())]
+    return [("doctrans.conformance:_get_name_from_namespace", pluralise_mapping()), ("doctrans.__main__:main", truth_pick_items())]
 
 
 def c10_items():
@@ -157,3 +157,53 @@ def file_count_items():
             if got != want:
                 bad.append((ns, got, want))
     return [("count-files", not bad, "number_of_files equals the number of file arguments on all %d Namespace shapes (names never count)" % n, bad[:2])]
+
+
+def truth_pick_items():
+    """C09.D0: which file main reads as the truth.  The statements of main's sync arm from the first to the last assignment to `truth_file`
+    are extracted mechanically (as they stand) and evaluated by CPython in __main__'s own namespace on every Namespace shape in which the
+    truth kind is given 1..3 files: the truth is the FIRST file of that kind (the help text says so), made absolute."""
+    import ast
+    import os
+    from argparse import Namespace
+
+    from vf.pyvc import verify as V
+
+    fn, src, path = V.find_def_dotted("doctrans.__main__", "main")
+    arm = next((n for n in ast.walk(fn) if isinstance(n, ast.If) and "'sync'" in ast.unparse(n.test) and "sync_properties" not in ast.unparse(n.test)), None)
+    if arm is None:
+        return [("truth-anchor", False, "main has a sync arm", None)]
+    idx = [i for i, st in enumerate(arm.body) if any(isinstance(x, ast.Assign) and any(isinstance(t, ast.Name) and t.id == "truth_file" for t in x.targets)
+                                                     for x in ast.walk(st))]
+    if not idx:
+        return [("truth-anchor", False, "the sync arm assigns truth_file", None)]
+    frag = ast.FunctionDef(name="_pick", args=ast.arguments(posonlyargs=[], args=[ast.arg("args"), ast.arg("_parser")], kwonlyargs=[], kw_defaults=[], defaults=[]),
+                           body=list(arm.body[idx[0]:idx[-1] + 1]) + [ast.Return(ast.Name("truth_file", ast.Load()))], decorator_list=[])
+    mod = ast.Module(body=[frag], type_ignores=[])
+    ast.fix_missing_locations(mod)
+    env = dict(vars(V.real_module("doctrans.__main__")))
+    exec(compile(mod, "<main truth pick>", "exec"), env)
+
+    class _P:
+        def error(self, msg):
+            raise SystemExit(msg)
+
+    plural = {"argparse_function": "argparse_functions", "class": "classes", "function": "functions"}
+    bad = []
+    n = 0
+    for kind in plural:
+        for k in (1, 2, 3):
+            files = ["/tmp/vf_truth_%s_%d.py" % (kind, i) for i in range(k)]
+            ns = {"truth": kind}
+            for other in plural:
+                ns[plural[other]] = list(files) if other == kind else ["/tmp/vf_other_%s.py" % other]
+                ns[other + "_names"] = ["N"]
+            n += 1
+            try:
+                got = env["_pick"](Namespace(**ns), _P())
+            except BaseException as e:  # noqa
+                got = "%s: %s" % (type(e).__name__, e)
+            want = os.path.realpath(files[0])
+            if got != want:
+                bad.append(({"truth": kind, "files": files}, got, want))
+    return [("truth-first", not bad, "with several files of the truth kind main reads the first one as the truth (%d Namespace shapes)" % n, bad[:2])]
